@@ -14,7 +14,8 @@ def overlap(w, rng):
         w.scans = w.scans + [w.scans[0]]
 
 
-ODD = [b"..\\..\\..\\escaped.bin", b"a\\b", b"..\\x", b"...", b"..a", b"a..", b" ", b"~", b"-x", b"*", b"con", b".hidden", b"a:b", b"%2e%2e", b"x\\..\\..\\y"]
+ODD = [b".\x7f.", b".\xe2\x80\xae.", b"\xe2\x80\x8e..", b"..\xe2\x80\x8f", b".\x01.", b"\x7f", b"\xe2\x80\xae", b"a\x7fb", b"\xc2\x85..", b".\xe2\x80\x8b.", b"\xef\xbb\xbf..", b".\x00.", b".\t.",
+       b"..\\..\\..\\escaped.bin", b"a\\b", b"..\\x", b"...", b"..a", b"a..", b" ", b"~", b"-x", b"*", b"con", b".hidden", b"a:b", b"%2e%2e", b"x\\..\\..\\y"]
 
 
 def odd_names(w, rng):
@@ -28,11 +29,17 @@ def odd_names(w, rng):
     tok = rng.choice(ODD)
     files = t.files
     name = t.name
-    if t.single or rng.random() < 0.3:
+    r = rng.random()
+    if t.single or r < 0.25:
         name = tok
-    else:
+    elif r < 0.6:
         f = rng.choice([x for x in files if not x.pad])
         f.path = list(f.path[:-1]) + [tok]
+    else:
+        # several odd components at once: the name and every directory component of one file
+        name = tok
+        f = rng.choice([x for x in files if not x.pad])
+        f.path = [rng.choice(ODD[:13]) for _ in range(rng.choice([1, 2, 3]))] + [b"leaf"]
     nt = worldgen.TorrentSpec(name, t.piece_length, files, t.single)
     if any(nt.info_hash == u.info_hash for k, u in enumerate(w.torrents) if k != i):
         return
